@@ -35,12 +35,6 @@ def metadataLines (d : Metadata) : List Str :=
   optLine (decide (d.beatmapId > 0)) (kvl (str "BeatmapID") (showInt d.beatmapId)) ++
   optLine (decide (d.beatmapSetId > 0)) (kvl (str "BeatmapSetID") (showInt d.beatmapSetId))
 
-theorem ite_isEmpty (b : Bool) (x : Str) : (if b = true then [] else x) = (if (!b) = true then x else []) := by
-  cases b <;> rfl
-
-theorem kvLine_eq (key : String) (v : Str) : kvLine key v = kvl (str key) v ++ EncodeLines.nl := by
-  simp [kvLine, kvl, str, Encode.nl, EncodeLines.nl]
-
 /-- the encoder's `[Metadata]` block is the header line followed by `metadataLines`. -/
 theorem encodeMetadata_eq {F P : Type} (m : Beatmap F P) :
     encodeMetadata m = unlines (str "[Metadata]" :: metadataLines m.metadata) := by
